@@ -17,7 +17,7 @@ import re
 from dataclasses import dataclass, field
 from typing import Callable, Iterable, Optional
 
-from ..core import FuncInfo, Report
+from ..core import FuncInfo, Report, unparse
 from ..ctx import Ctx
 from ..roles import Roles
 
@@ -258,7 +258,8 @@ def expect(rep: Report, rule: str, fi: FuncInfo, effs: list[Eff], what: str,
            must: Iterable[Guard] = (), may: Iterable[Guard] = (),
            kind: str = "call", alt_args: Iterable[tuple[str, ...]] = (),
            why: str = "", select: Optional[Callable[[Eff], bool]] = None,
-           any_guard: bool = False) -> Optional[Eff]:
+           any_guard: bool = False, final_args: bool = False
+           ) -> Optional[Eff]:
     """Exactly one effect (kind, name, recv, args) exists; it runs under
     every condition of ``must`` and under no condition outside ``must`` +
     ``may``."""
@@ -295,6 +296,19 @@ def expect(rep: Report, rule: str, fi: FuncInfo, effs: list[Eff], what: str,
         detail += " -- " + why
     rep.ob(rule, what, ok, fi=fi, node=hits[0].node if hits else fi.node,
            detail=detail)
+    # a role describes a local by its definition: an argument that was
+    # computed (not an empty accumulator) and is then modified in place is
+    # not what the obligation says it is
+    if final_args and ok and kind == "call" and len(hits) == 1 and \
+            isinstance(hits[0].node, ast.Call):
+        ps = set(fi.params())
+        for a in hits[0].node.args:
+            for nm, st in mutated_locals(fi, a):
+                if nm in ps or _starts_empty(fi, nm):
+                    continue
+                rep.ob(rule, f"{what} - the argument '{nm}' is not modified "
+                       "in place after it is computed", False, fi=fi,
+                       node=st, detail=f"{unparse(st)[:80]}")
     return hits[0] if len(hits) == 1 else None
 
 
@@ -349,17 +363,39 @@ def check_table(rep: Report, ctx: Ctx, rule: str, table: dict,
             if args and isinstance(args[0], tuple):   # alternatives
                 alts = [tuple(abbr(a) for a in alt) for alt in args[1:]]
                 args = args[0]
-            expect(rep, rule, fi, effs, f"{fi.name}: {what}", kind=kind,
-                   name=name, recv=abbr(recv), alt_args=alts,
-                   args=tuple(abbr(a) for a in args), must=must,
-                   may=[] if may == "*" else may, any_guard=may == "*",
-                   why=why)
+            expect(rep, rule, fi, effs, f"{fi.name}: {what}",
+                   kind=kind, name=name, recv=abbr(recv),
+                   alt_args=alts, args=tuple(abbr(a) for a in args),
+                   must=must, may=[] if may == "*" else may,
+                   any_guard=may == "*", why=why, final_args=True)
+
 
 
 _MUTATORS = {"add", "update", "discard", "remove", "clear", "pop", "append",
              "extend", "insert", "difference_update", "intersection_update",
              "symmetric_difference_update", "setdefault", "popitem", "sort",
              "reverse"}
+
+
+def _starts_empty(fi: FuncInfo, name: str) -> bool:
+    for x in ast.walk(fi.node):
+        tg = None
+        if isinstance(x, ast.Assign) and len(x.targets) == 1:
+            tg = x.targets[0]
+        elif isinstance(x, ast.AnnAssign):
+            tg = x.target
+        if isinstance(tg, ast.Name) and tg.id == name:
+            v = x.value
+            if isinstance(v, (ast.List, ast.Set)) and not v.elts:
+                return True
+            if isinstance(v, ast.Dict) and not v.keys:
+                return True
+            if isinstance(v, ast.Call) and not v.args and not v.keywords \
+                    and isinstance(v.func, ast.Name) and v.func.id in (
+                        "set", "list", "dict"):
+                return True
+            return False
+    return True
 
 
 def mutated_locals(fi: FuncInfo, expr: ast.AST) -> list[tuple[str, ast.AST]]:
@@ -377,7 +413,8 @@ def mutated_locals(fi: FuncInfo, expr: ast.AST) -> list[tuple[str, ast.AST]]:
                 and st.func.value.id in names and st.func.attr in _MUTATORS:
             out.append((st.func.value.id, st))
         elif isinstance(st, ast.AugAssign) and isinstance(
-                st.target, ast.Name) and st.target.id in names:
+                st.target, ast.Name) and st.target.id in names and isinstance(
+                st.op, (ast.BitOr, ast.BitAnd, ast.Sub, ast.BitXor)):
             out.append((st.target.id, st))
         elif isinstance(st, (ast.Assign, ast.AugAssign)):
             tg = st.targets[0] if isinstance(st, ast.Assign) else st.target
